@@ -349,6 +349,14 @@ func runCheck(cfg *Config) int {
 						BindErrs: []string{fmt.Sprintf("%s.%s: function not found in %s (contract cannot be bound)", pkgShort(it.pkg), it.key, it.pkg)}})
 					continue
 				}
+				if c.SplitVar != "" {
+					rep.Funcs = append(rep.Funcs, safeVerify(P, fn, c, cf, inst, verifyOpts{knownActive: known.active(), splitCheck: true}))
+					for v := c.SplitLo; v <= c.SplitHi; v++ {
+						v := v
+						rep.Funcs = append(rep.Funcs, safeVerify(P, fn, c, cf, inst, verifyOpts{knownActive: known.active(), split: &v}))
+					}
+					continue
+				}
 				rep.Funcs = append(rep.Funcs, safeVerify(P, fn, c, cf, inst, verifyOpts{knownActive: known.active()}))
 				for _, k := range c.Known {
 					if known.active()[k.ID] {
